@@ -67,3 +67,12 @@ Example C07_encode_example :
   p2 o [] 0 5 [] (VMap [("$encode", VStr "base64"); ("$value", VStr "hi")]) = Ok (VStr "aGk=") /\
   p2 o [] 0 5 [] (VMap [("$encode", VStr "base64"); ("$value", VStr "$required")]) = Err ERequired.
 Proof. split; vm_compute; reflexivity. Qed.
+(* ... for chains of encodings too, including those whose first stage merely reshapes the subject (the leaves would
+   otherwise be folded into one string by the later stage and no output check could find the marker any more) *)
+Example C07_encode_chain_example :
+  let o := {| o_env := []; o_yaml := fun _ => Err EOracle; o_enc := fun _ _ => Err EOracle; o_dec := fun _ _ => Err EOracle;
+              o_fmt := fun _ => false; o_sha := fun _ => Err EOracle; o_lower := fun _ => false |} in
+  p2 o [] 0 5 [] (VMap [("$encode", VList [VStr "values"; VStr "join:,"]); ("a", VStr "x"); ("b", VStr "y")]) = Ok (VStr "x,y") /\
+  p2 o [] 0 5 [] (VMap [("$encode", VList [VStr "values"; VStr "join:,"]); ("a", VStr "x"); ("b", VStr "$required")]) = Err ERequired /\
+  p2 o [] 0 5 [] (VMap [("$encode", VStr "values"); ("$mtach", VInt 1); ("b", VInt 2)]) = Err EInvalidDirective.
+Proof. repeat split; vm_compute; reflexivity. Qed.
